@@ -297,7 +297,7 @@ def random_source(rng, ny, nx, kind=None):
     nothing in the response may depend on the absolute size of the source: trace-gas fluxes are ~1e-8)"""
     q = _random_source(rng, ny, nx, kind)
     if rng.random() < 0.25:
-        q = q * float(10.0 ** rng.uniform(-12, 5))
+        q = q * float(10.0 ** rng.uniform(-17, 6))
     return q
 
 
@@ -383,9 +383,22 @@ def random_case(rng, small=True, **over):
                 modes=(nlx, nly), meas_pt=(xm, ym), bg=float(rng.choice([0.0, rng.normal(), rng.normal() * 10.0 ** rng.uniform(-12, 0)])),
                 footprint=footprint, analytic=analytic, halo=halo,
                 precision=str(rng.choice(["double", "double", "single"])))
+    wk = "oblique"
+    if "profiles" not in over:
+        x_ = rng.random()
+        if x_ < 0.15:
+            # exact zeros among the wind components: a wind exactly along one grid axis, or no wind at all (pure diffusion)
+            u_, v_, Kx_, Ky_, Kz_ = case["profiles"]
+            wk = "along x (v = 0)" if x_ < 0.06 else "along y (u = 0)" if x_ < 0.12 else "calm (u = v = 0)"
+            if wk.startswith("along x"):
+                case["profiles"] = (np.hypot(u_, v_), np.zeros_like(v_), Kx_, Ky_, Kz_)
+            elif wk.startswith("along y"):
+                case["profiles"] = (np.zeros_like(u_), -np.hypot(u_, v_), Kx_, Ky_, Kz_)
+            else:
+                case["profiles"] = (np.zeros_like(u_), np.zeros_like(v_), Kx_, Ky_, Kz_)
     case.update(over)
     limit_growth(case)
-    case["_kinds"] = dict(halo=hk, levels=lk, meas=mk, prof="uniform" if prof[0][0] == prof[0][-1] else "varying")
+    case["_kinds"] = dict(halo=hk, levels=lk, meas=mk, prof="uniform" if prof[0][0] == prof[0][-1] else "varying", wind=wk)
     if rng.random() < 0.12 and "meas_pt" not in over:
         # whole-metre measurement point handed over as integers (the extents usually are not whole: xmax / 2, the padding, dx stay fractional)
         case["ints"] = str(rng.choice(["py", "np"]))
